@@ -115,6 +115,15 @@ Definition is_utf8b (bs : list Z) : bool := match is_utf8 bs with Some true => t
 Definition remove_invalid_utf8 (input : list Z) : list Z :=
   unrecords riu_delim (filter is_utf8b (records riu_delim riu_strip_cr input)).
 
+(* commoncrawl_dedupe's StripSpaces: bytes with kSpaces[b] (regenerated from util/spaces.cc) are removed from both ends *)
+Definition is_space_byte (b : Z) : bool := existsb (Z.eqb b) space_bytes.
+Fixpoint drop_spaces (l : list Z) : list Z :=
+  match l with
+  | b :: r => if is_space_byte b then drop_spaces r else l
+  | [] => []
+  end.
+Definition strip_spaces (l : list Z) : list Z := rev (drop_spaces (rev (drop_spaces l))).
+
 (* -------------------------------------------------- independent specification *)
 
 (* Unicode 15, Table 3-7.  Well-Formed UTF-8 Byte Sequences (one row each) *)
